@@ -121,6 +121,15 @@ Proof. exact (fun dur dist t => conj (tour_dist_td_const dur dist t) (replay_dur
 Theorem C01_no_general_routing_is_feasible_viols : forall P S, feasible_viols_x None P S = feasible_viols P S.
 Proof. exact feasible_viols_x_none. Qed.
 
+(* finding C01-F5, witness: with a travel time that grows with the departure time, moving the departure by the slack of the current
+   schedule (try_advance_departure_time assumes arrivals move 1:1 with the departure) makes the tour miss the window *)
+Theorem C01_departure_shift_time_dependent_refuted :
+  time_feasible_td ex_dur_f5 (ex_tour_f5 50) = true
+  /\ 50 + ex_dur_f5 0 1 50 = 87 /\ 87 + 28 = 115
+  /\ 78 + ex_dur_f5 0 1 78 = 133
+  /\ time_feasible_td ex_dur_f5 (ex_tour_f5 78) = false.
+Proof. exact ex_departure_shift_td. Qed.
+
 (* reachability, step level: an insertion that passed the gate of ReachableConstraint (prev -> target, target -> next) keeps
    every leg reachable ... *)
 Theorem C01_reachable_insertion_sound : forall err t idx a,
